@@ -104,7 +104,12 @@ def step (s : St) (ws : List String) : St × String :=
       | .ok n' =>
         let head := if n'.cmeta.1 > 0 then (if (getBlock n' n'.cmeta.1 true).isSome then "readable" else "unreadable") else "readable"
         let sk := (match (Bxh.Ledger.getState n'.st 0 "height").2 with | some v => v | none => "-") ++ "/" ++ toString (Bxh.Ledger.getBalance n'.st 0).2
-        ({ n := some n' }, s!"h={b.height} opened chain={n'.cmeta.1} state={n'.st.maxJ} blockfile={n'.blocks} head={head} statekey={sk}")
+        -- the head block's state root ("r<h>-<serial>", as its hash is "B<h>.<serial>") against the root the reopened state store chains from
+        let headRoot := if n'.cmeta.1 > 0 then
+            (match getBlock n' n'.cmeta.1 false with | some hb => "r" ++ ((hb.hash.drop 1).toString.replace "." "-") | none => "?")
+          else Bxh.Ledger.zeroRoot
+        let root := if headRoot == "?" then "unknown" else if n'.st.prevRoot == headRoot then "match" else "differs"
+        ({ n := some n' }, s!"h={b.height} opened chain={n'.cmeta.1} state={n'.st.maxJ} blockfile={n'.blocks} head={head} statekey={sk} root={root}")
   | [] => (s, "bad-op")
 
 end Driver.StoreEngine
